@@ -135,6 +135,33 @@ class Cx:
                            f"{f.qualname} no longer has the documented parameter(s) {gone} (it takes {cur}): a call that passes "
                            f"{gone[0]!r} by keyword - env.get_agent(id=...) - now raises TypeError instead of doing what is documented",
                            where=self.where(f))
+        # ... and its default: a call that leaves the argument out gets what it used to get (tag=None -> tag=Tags.NONE turns "no tag
+        # filter" into "tag 0 only"); a default spelled through a named constant of the same value is the same default
+        pdefs = sigs.get('#def:' + f.qualname.split('@')[0]) or {}
+        if pdefs and not f.name.startswith('_') or (pdefs and f.name == '__init__'):
+            try:
+                import ast as _ast
+                from .walker import _Ctx, State
+                c_ = _Ctx(self.walker, f, WalkOptions())
+                c_.class_scope = True
+                for pn, src in sorted(pdefs.items()):
+                    if pn not in f.params + f.kwonly:
+                        continue
+                    cur_d = f.param_default(pn)
+                    if cur_d is None:
+                        changed = 'no default any more'
+                    else:
+                        a_, b_ = c_.ev(cur_d, State()), c_.ev(_ast.parse(src, mode='eval').body, State())
+                        changed = None if (a_ == b_ or _ast.unparse(cur_d) == src) else f"{_ast.unparse(cur_d)} instead of {src}"
+                    if changed:
+                        self.violation('R-API', f.qualname, 'documented-defaults-kept',
+                                       f"{f.qualname}: the default of `{pn}` is {changed}: a call that leaves `{pn}` out no longer does what "
+                                       f"is documented for it", where=self.where(f))
+                        break
+            except AnalysisError:
+                raise
+            except Exception:
+                pass
         if not ok:
             self.violation('R-API', f.qualname, 'documented-positional-parameters-kept',
                            f"{f.qualname} takes the positional parameters {cur}; the documented ones are {pinned}"
